@@ -41,6 +41,113 @@ def _cex(mdl):
     return {"env": env}
 
 
+
+def check_events(M, C, sizes, tails, candidates, base_case, pfx="anyL", domain=None, returned=None, full_box=None, extra_prem=None):
+    """verification conditions for the recorded run.
+       candidates(idx, tail) -> list of (description, rhs Sym, [Affs that must be >= 0])  specification relations that may define idx
+       base_case(idx, tail)  -> Sym or None   (elements the specification gives in closed form / by a callee's contract)
+       domain(env, k, j, i)  -> z3 Bool       the part of the table the specification speaks about (default: all of it)
+       returned              -> read events describing the region handed back to the caller (default: the whole table, full_box)"""
+    import z3
+
+    from engine import subst
+
+    writes = [e for e in C.events if e["kind"] == "write"]
+    reads = [e for e in C.events if e["kind"] == "read"]
+    M.true(pfx + "/events", len(writes) >= 2 and len(reads) >= 2, "%d slice assignments, %d table reads recorded" % (len(writes), len(reads)))
+    env, _cache = G._z3env()
+    prem = _sizes_premise(env, sizes) + list(extra_prem(env) if extra_prem else [])
+    dom = domain or (lambda env_, k, j, i: z3.BoolVal(True))
+
+    for n, w in enumerate(writes):
+        name = "%s/stmt%02d[%r,%r,%r]" % (pfx, n, w["idx"][0], w["idx"][1], w["idx"][2])
+        target = [e.z3(env) for e in w["idx"]]
+        wprem = prem + [G._cons_z3(w["cons"], env), dom(env, *target)]
+        sol0 = z3.Solver()
+        sol0.add(z3.And(wprem))
+        if sol0.check() == z3.unsat:
+            M._rec(name + "/writes-nothing-the-specification-speaks-about", "discharged", "z3-lia", 0.0, detail="empty for all extents", vacuous=True)
+            continue
+        for e, D in w["bounds"]:
+            st, mdl = G.check_valid(prem + [G._cons_z3(w["cons"], env)], z3.And(e.z3(env) >= 0, e.z3(env) < D.z3(env)))
+            M._rec(name + "/index-in-range[%r]" % e, st, "z3-lia", 0.0, detail=mdl or "", cex=_cex(mdl))
+        for la, ra in w.get("lens", []):
+            pv = z3.Int("q")
+            inl = z3.And([la.lo.z3(env) + pv < ub.z3(env) for ub in la.ubs])
+            inr = z3.And([ra.lo.z3(env) + pv < ub.z3(env) for ub in ra.ubs])
+            st, mdl = G.check_valid(prem + [G._cons_z3(G.loop_cons(w["loops"]), env), pv >= 0], inl == inr)
+            M._rec(name + "/aligned-slices-equal-length", st, "z3-lia", 0.0, detail=mdl or "", cex=_cex(mdl))
+        # generic positions / loop variables that the constraints pin to one value (a slice such as 1:2 has at most one
+        # element): substitute them, in the index and in the value
+        forced = {}
+        for v in sorted(G._vars(w["cons"], w["idx"]) - set(sizes)):
+            c = sol0.model().eval(env(v), model_completion=True).as_long()
+            if G.check_valid(prem + [G._cons_z3(w["cons"], env)], env(v) == c)[0] == "discharged":
+                forced[v] = c
+
+        def pin(a):
+            return G.Aff({nm: cf for nm, cf in a.t.items() if nm not in forced}, a.c + sum(cf * forced[nm] for nm, cf in a.t.items() if nm in forced))
+
+        Cx = alg.ctx()
+        senv = {Cx.byname[nm]: alg.Value.const(c) for nm, c in forced.items() if nm in Cx.byname}
+        idx = tuple(pin(e) for e in w["idx"])
+        for tail in tails:
+            got = w["value"][(0,) * (w["value"].ndim - len(tail)) + tail]
+            vg = subst.substitute_all(S.expand(S.lift(got)), senv)
+            base = base_case(idx, tail)
+            if base is not None:
+                M.eq(name + "/base-case" + str(list(tail)), S.Sym.of_value(vg), base)
+                continue
+            matched = None
+            for desc, rhs, nonneg in candidates(idx, tail):
+                if alg.v_equal(vg, subst.substitute_all(S.expand(S.lift(rhs)), senv)):
+                    matched = (desc, nonneg)
+                    break
+            M._rec(name + "/value-is-a-relation-of-the-specification" + str(list(tail)), "discharged" if matched else "failed", "polyid", 0.0,
+                   detail=("matches " + matched[0]) if matched else "no relation of the specification gives this value at this index",
+                   got=alg.fmt(vg, 8), cex={"env": {}} if not matched else None)
+            if matched and tail == tails[0]:
+                for e in matched[1]:
+                    st, mdl = G.check_valid(wprem, e.z3(env) >= 0)
+                    M._rec(name + "/relation-applied-inside-the-table[%r>=0]" % e, st, "z3-lia", 0.0, detail=mdl or "", cex=_cex(mdl))
+
+    def written_before(r, rprem, label):
+        target = [e.z3(env) for e in r["idx"]]
+        alts = []
+        for w in writes:
+            rl = {l[0]: l for l in r["loops"]}
+            common = [l for l in w["loops"] if l[0] in rl]
+            wt = None
+            if common:
+                lid, tname = common[-1][0], common[-1][1]
+                alts.append(G.region_formula(w, target, env, sizes, order=(lid, tname, r["seq"])))
+            elif r["seq"] is None or w["seq"] < r["seq"]:
+                alts.append(G.region_formula(w, target, env, sizes))
+        st, mdl = G.check_valid(rprem, z3.And(z3.Or(alts) if alts else z3.BoolVal(False), dom(env, *target)), timeout_ms=60000)
+        M._rec(label, st, "z3-lia", 0.0, detail=mdl or "", cex=_cex(mdl))
+
+    # every element read (for a target the specification speaks about) was written earlier and lies in the domain
+    for n, r in enumerate(reads):
+        wtarget = [e.z3(env) for e in r["widx"]]
+        rprem = prem + [G._cons_z3(r["wcons"], env), dom(env, *wtarget)]
+        written_before(r, rprem, "%s/read%02d[%r,%r,%r]@stmt-seq%d/written-before" % (pfx, n, r["idx"][0], r["idx"][1], r["idx"][2], r["seq"]))
+        for e, D in r["bounds"]:
+            st, mdl = G.check_valid(prem + [G._cons_z3(r["wcons"], env)], z3.And(e.z3(env) >= 0, e.z3(env) < D.z3(env)))
+            M._rec("%s/read%02d/index-in-range[%r]" % (pfx, n, e), st, "z3-lia", 0.0, detail=mdl or "", cex=_cex(mdl))
+
+    # what is handed back to the caller has been written and lies in the domain
+    if returned is not None:
+        for n, r in enumerate(returned):
+            r = dict(r)
+            r["seq"] = None
+            written_before(r, prem + [G._cons_z3(r["cons"], env)], "%s/returned-region%d/every-element-written-and-specified" % (pfx, n))
+    else:
+        kk, jj, ii = z3.Int("ck"), z3.Int("cj"), z3.Int("ci")
+        box = full_box(env, kk, jj, ii)
+        st, mdl = G.check_valid(prem + box, z3.Or([G.region_formula(w, [kk, jj, ii], env, sizes) for w in writes]), timeout_ms=60000)
+        M._rec(pfx + "/coverage/every-element-written", st, "z3-lia", 0.0, detail=mdl or "", cex=_cex(mdl))
+
+
 class MomentRecursionAnyL:
     """_compute_multipole_moment_integrals_intermediate fills integrals[k, j, i] = S[k, j, i] for ALL
     order_moment_max, angmom_b_max, angmom_a_max >= 0 (generic-element execution; see the module docstring)"""
@@ -105,124 +212,165 @@ class MomentRecursionAnyL:
             G.CTX[0] = None
         M.true("anyL/returns-the-table", isinstance(out, G.GArray) and [d.key() for d in out.dims] == [(G.Aff.var(n) + 1).key() for n in sizes]
                and out.tail == (3, Kb, Ka), "shape (n_k+1, n_b+1, n_a+1, 3, K_b, K_a)")
-        writes = [e for e in C.events if e["kind"] == "write"]
-        reads = [e for e in C.events if e["kind"] == "read"]
-        M.true("anyL/events", len(writes) >= 4 and len(reads) >= 4, "%d slice assignments, %d table reads recorded" % (len(writes), len(reads)))
-        env, _cache = G._z3env()
-        prem = _sizes_premise(env, sizes)
-        dims = {0: "nk", 1: "nb", 2: "na"}
+        tails = list(itertools.product(range(3), range(Kb), range(Ka)))
 
-        # ---- specification side: quantities from the inputs (independent of the code's variables)
         def geom(x, pb, pa):
             a, b = ea[pa], eb[pb]
             p = a + b
             Px = (a * A[x] + b * B[x]) / p
             return dict(p=p, PA=Px - A[x], PB=Px - B[x], PC=Px - Cm[x])
 
-        def spec_rhs(axis, idx, tail):
-            """right-hand side of the recurrence that raises `axis` to reach idx; None if idx[axis] is the constant 0"""
-            k, j, i = idx
-            low = [k, j, i]
-            low[axis] = low[axis] - 1
-            if idx[axis].is_const() and idx[axis].c == 0:
-                return None, None
+        def candidates(idx, tail):
+            out_ = []
             g = geom(*tail)
-            lk, lj, li = low
-            X = (g["PC"], g["PB"], g["PA"])[axis]
-            tot = X * C.atom(lk, lj, li, tail)
-            acc = S.lift(0)
-            for ax2, coef in ((2, li), (1, lj), (0, lk)):
-                if coef.is_const() and coef.c == 0:
+            for axis in (2, 1, 0):
+                if idx[axis].is_const() and idx[axis].c == 0:
                     continue
-                nb_ = [lk, lj, li]
-                nb_[ax2] = nb_[ax2] - 1
-                acc = acc + coef.to_sym() * C.atom(nb_[0], nb_[1], nb_[2], tail)
-            return tot + acc / (g["p"] * 2), low
-
-        # ---- value obligations
-        for n, w in enumerate(writes):
-            name = "anyL/stmt%02d[%r,%r,%r]" % (n, w["idx"][0], w["idx"][1], w["idx"][2])
-            wprem = prem + [G._cons_z3(w["cons"], env)]
-            sol0 = z3.Solver()
-            sol0.add(z3.And(wprem))
-            if sol0.check() == z3.unsat:
-                M._rec(name + "/never-executes-with-an-element", "discharged", "z3-lia", 0.0, detail="empty target for all extents", vacuous=True)
-                continue
-            # integer indices inside the table, aligned slices of equal extent
-            for e, D in w["bounds"]:
-                st, mdl = G.check_valid(wprem, z3.And(e.z3(env) >= 0, e.z3(env) < D.z3(env)))
-                M._rec(name + "/index-in-range[%r]" % e, st, "z3-lia", 0.0, detail=mdl or "", cex=_cex(mdl))
-            for la, ra in w.get("lens", []):
-                # for every generic position: inside the target slice <=> inside the source slice
-                pv = z3.Int("q")
-                inl = z3.And([la.lo.z3(env) + pv < ub.z3(env) for ub in la.ubs])
-                inr = z3.And([ra.lo.z3(env) + pv < ub.z3(env) for ub in ra.ubs])
-                st, mdl = G.check_valid(prem + [G._cons_z3(G.loop_cons(w["loops"]), env), pv >= 0], inl == inr)
-                M._rec(name + "/aligned-slices-equal-length", st, "z3-lia", 0.0, detail=mdl or "", cex=_cex(mdl))
-            # generic positions / loop variables that the constraints pin to one value (a slice such as 1:2 has at most
-            # one element): substitute them, in the index and in the value
-            forced = {}
-            for v in sorted(G._vars(w["cons"], w["idx"]) - set(sizes)):
-                sol = z3.Solver()
-                sol.add(z3.And(wprem))
-                if sol.check() != z3.sat:
-                    break
-                c = sol.model().eval(env(v), model_completion=True).as_long()
-                if G.check_valid(wprem, env(v) == c)[0] == "discharged":
-                    forced[v] = c
-            def pin(a):
-                return G.Aff({n: cf for n, cf in a.t.items() if n not in forced}, a.c + sum(cf * forced[n] for n, cf in a.t.items() if n in forced))
-            from engine import subst
-            Cx = alg.ctx()
-            senv = {Cx.byname[n]: alg.Value.const(c) for n, c in forced.items() if n in Cx.byname}
-            # value: equals the specification at the written index
-            k, j, i = [pin(e) for e in w["idx"]]
-            allzero = all(e.is_const() and e.c == 0 for e in (k, j, i))
-            for tail in itertools.product(range(3), range(Kb), range(Ka)):
-                got = w["value"][(0,) * (w["value"].ndim - 3) + tail]
-                if allzero:
-                    a, b = ea[tail[2]], eb[tail[1]]
-                    want = M.SF.sqrt(M.SF.pi / (a + b)) * M.SF.exp(-(a * b / (a + b)) * (A[tail[0]] - B[tail[0]]) * (A[tail[0]] - B[tail[0]]))
-                    M.eq(name + "/base-case" + str(list(tail)), got, want)
-                    continue
-                vg = subst.substitute_all(S.expand(S.lift(got)), senv)
-                matched = None
-                for axis in (2, 1, 0):
-                    rhs, low = spec_rhs(axis, (k, j, i), tail)
-                    if rhs is None:
+                low = list(idx)
+                low[axis] = low[axis] - 1
+                lk, lj, li = low
+                rhs = (g["PC"], g["PB"], g["PA"])[axis] * C.atom(lk, lj, li, tail)
+                acc = S.lift(0)
+                for ax2, coef in ((2, li), (1, lj), (0, lk)):
+                    if coef.is_const() and coef.c == 0:
                         continue
-                    if alg.v_equal(vg, subst.substitute_all(S.expand(S.lift(rhs)), senv)):
-                        matched = (axis, low)
-                        break
-                M._rec(name + "/value-is-a-recurrence-of-the-specification" + str(list(tail)), "discharged" if matched else "failed", "polyid", 0.0,
-                       detail="matches the %s-raising relation" % "kji"[matched[0]] if matched else "no relation of the specification gives this value",
-                       got=alg.fmt(vg, 8), cex={"env": {}} if not matched else None)
-                if matched and tail == (0, 0, 0):
-                    # the relation is used at a legitimate place: the lowered index is >= 0
-                    st, mdl = G.check_valid(wprem, matched[1][matched[0]].z3(env) >= 0)
-                    M._rec(name + "/relation-applied-at-nonnegative-index", st, "z3-lia", 0.0, detail=mdl or "", cex=_cex(mdl))
+                    nb_ = [lk, lj, li]
+                    nb_[ax2] = nb_[ax2] - 1
+                    acc = acc + coef.to_sym() * C.atom(nb_[0], nb_[1], nb_[2], tail)
+                out_.append(("the %s-raising relation" % "kji"[axis], rhs + acc / (g["p"] * 2), [low[axis]]))
+            return out_
 
-        # ---- every element read was written earlier (earlier statement, or earlier iteration of the same loop)
-        for n, r in enumerate(reads):
-            target = [e.z3(env) for e in r["idx"]]
-            rprem = prem + [G._cons_z3(r["wcons"], env)]
-            alts = []
-            for w in writes:
-                rl = {l[0]: l for l in r["loops"]}
-                common = [l for l in w["loops"] if l[0] in rl]
-                if common:
-                    lid, tname = common[-1][0], common[-1][1]
-                    alts.append(G.region_formula(w, target, env, sizes, order=(lid, tname, r["seq"])))
-                elif w["seq"] < r["seq"]:
-                    alts.append(G.region_formula(w, target, env, sizes))
-            st, mdl = G.check_valid(rprem, z3.Or(alts) if alts else z3.BoolVal(False))
-            M._rec("anyL/read%02d[%r,%r,%r]@stmt-seq%d/written-before" % (n, r["idx"][0], r["idx"][1], r["idx"][2], r["seq"]), st, "z3-lia", 0.0, detail=mdl or "", cex=_cex(mdl))
-            for e, D in r["bounds"]:
-                st, mdl = G.check_valid(rprem, z3.And(e.z3(env) >= 0, e.z3(env) < D.z3(env)))
-                M._rec("anyL/read%02d/index-in-range[%r]" % (n, e), st, "z3-lia", 0.0, detail=mdl or "", cex=_cex(mdl))
+        def base_case(idx, tail):
+            if all(e.is_const() and e.c == 0 for e in idx):
+                a, b = ea[tail[2]], eb[tail[1]]
+                return M.SF.sqrt(M.SF.pi / (a + b)) * M.SF.exp(-(a * b / (a + b)) * (A[tail[0]] - B[tail[0]]) * (A[tail[0]] - B[tail[0]]))
+            return None
 
-        # ---- coverage: at return every element of the table has been written
-        kk, jj, ii = z3.Int("ck"), z3.Int("cj"), z3.Int("ci")
-        box = [kk >= 0, kk <= env("nk"), jj >= 0, jj <= env("nb"), ii >= 0, ii <= env("na")]
-        st, mdl = G.check_valid(prem + box, z3.Or([G.region_formula(w, [kk, jj, ii], env, sizes) for w in writes]), timeout_ms=60000)
-        M._rec("anyL/coverage/every-element-written", st, "z3-lia", 0.0, detail=mdl or "", cex=_cex(mdl))
+        import z3
+
+        check_events(M, C, sizes, tails, candidates, base_case,
+                     full_box=lambda env, k, j, i: [k >= 0, k <= env("nk"), j >= 0, j <= env("nb"), i >= 0, i <= env("na")])
+
+
+class DiffRecursionAnyL:
+    """_compute_differential_operator_integrals_intermediate, for ALL order_diff_max >= 1, angmom_b_max, angmom_a_max >= 0:
+    with D[k, j, i] = int (x-A)^i e^{-a(x-A)^2} d^k/dx^k [(x-B)^j e^{-b(x-B)^2}] dx the specification is
+
+        D[0, j, i]   = S[0, j, i]                              (the overlap table: contract of the callee, MomentRecursionAnyL)
+        D[k+1, j, i] = 2a D[k, j, i+1] - i D[k, j, i-1]         (integration by parts)
+
+    on the domain i <= n_a + n_d - k (each derivative order costs one unit of the padded a-extent; what the code
+    leaves outside that domain is never specified, never read for a specified element and never returned); the
+    function returns the region i <= n_a, which lies inside the domain and has been written completely."""
+
+    function = "gbasis.integrals._diff_operator_int._compute_differential_operator_integrals_intermediate (any angular momentum, any derivative order)"
+
+    def shapes(self, tier):
+        return [dict(K=[2, 1])]
+
+    def native(self, shape, M):
+        from specs import basisfn
+        from specs.gauss1d import Gauss1D
+
+        mod = M.mods["gbasis.integrals._diff_operator_int"]
+
+        def ext(name, default, lo=0):
+            try:
+                return max(lo, min(6, int(M.env[name])))
+            except Exception:
+                return default
+
+        nd, nb, na = ext("nd", 3, 1), ext("nb", 2), ext("na", 3)
+        Ka, Kb = shape["K"]
+        A, B = M.vec("A", 3), M.vec("B", 3)
+        ea, eb = M.vec("a", Ka, "pos"), M.vec("b", Kb, "pos")
+        out = mod._compute_differential_operator_integrals_intermediate(nd, A, na, ea, B, nb, eb)
+        sA, sB, sa, sb = map(M.to_spec, (A, B, ea, eb))
+        worst, where = 0.0, None
+        ok_shape = tuple(out.shape) == (nd + 1, nb + 1, na + 1, 3, Kb, Ka)
+        if ok_shape:
+            for pa in range(Ka):
+                for pb in range(Kb):
+                    for ax in range(3):
+                        g = Gauss1D(M.SF, sa[pa], sA[ax], sb[pb], sB[ax])
+                        for k in range(nd + 1):
+                            for j in range(nb + 1):
+                                for i in range(na + 1):
+                                    want = basisfn.d1d(g, i, j, k)
+                                    err = abs(float(out[k, j, i, ax, pb, pa]) - float(want)) / max(1.0, abs(float(want)))
+                                    if not (err <= worst):
+                                        worst, where = err, (k, j, i, ax, pb, pa)
+        M.true(M.wanted or "anyLdiff/native-table-equals-closed-form", ok_shape and worst <= 1e-9,
+               "extents (n_d, n_b, n_a) = (%d, %d, %d): shape %s, worst relative deviation from the closed form %.3g at %s" % (nd, nb, na, tuple(out.shape), worst, where))
+
+    def run(self, shape, M):
+        if not M.symbolic:
+            return self.native(shape, M)
+        import z3
+
+        mod = M.mods["gbasis.integrals._diff_operator_int"]
+        Ka, Kb = shape["K"]
+        A, B = M.vec("A", 3), M.vec("B", 3)
+        ea, eb = M.vec("a", Ka, "pos"), M.vec("b", Kb, "pos")
+        sizes = ["nd", "nb", "na"]
+        nd, nb, na = (G.Aff.var(n) for n in sizes)
+        C = G.Ctx(sizes)
+        G.CTX[0] = C
+        seen = {}
+
+        def callee(coord_moment, order_moment_max, coord_a, angmom_a_max, exps_a, coord_b, angmom_b_max, exps_b):
+            seen["args"] = (coord_moment, order_moment_max, coord_a, angmom_a_max, exps_a, coord_b, angmom_b_max, exps_b)
+            return G.GSpecTable([G.Aff.of(order_moment_max) + 1, G.Aff.of(angmom_b_max) + 1, G.Aff.of(angmom_a_max) + 1], (3, Kb, Ka), "S0")
+
+        try:
+            with bind.patched((mod, "np", G.GNp(mod.np)), (mod, "range", G.grange), (mod, "_compute_multipole_moment_integrals_intermediate", callee)):
+                out = mod._compute_differential_operator_integrals_intermediate(nd, A, na, ea, B, nb, eb)
+        finally:
+            G.CTX[0] = None
+        pfx = "anyLdiff"
+        a_ = seen.get("args")
+        M.true(pfx + "/pre@moment-recursion/called", a_ is not None, "the overlap table is requested from the multipole-moment recursion")
+        if a_ is None:
+            return
+
+        def same(x, ref):
+            x, ref = np.asarray(x, dtype=object).reshape(-1), np.asarray(ref, dtype=object).reshape(-1)
+            return x.shape == ref.shape and all(alg.v_equal(S.expand(S.lift(u)), S.expand(S.lift(v))) for u, v in zip(x, ref))
+
+        M.true(pfx + "/pre@moment-recursion/args", G.Aff.of(a_[1]).key() == G.Aff.of(0).key() and G.Aff.of(a_[3]).key() == (na + nd).key()
+               and G.Aff.of(a_[6]).key() == nb.key() and same(a_[2], A) and same(a_[5], B) and same(a_[4], ea) and same(a_[7], eb),
+               "moment order 0, a-extent n_a + n_d, b-extent n_b, the two centres and exponent arrays forwarded")
+        M.true(pfx + "/returns-a-view-of-the-table", isinstance(out, G.GVal) and len(out.reads) == 1, "the function returns a slice of the table it filled")
+        if not isinstance(out, G.GVal):
+            return
+        tails = list(itertools.product(range(3), range(Kb), range(Ka)))
+
+        def candidates(idx, tail):
+            k, j, i = idx
+            if k.is_const() and k.c == 0:
+                return []
+            a = ea[tail[2]]
+            rhs = a * 2 * C.atom(k - 1, j, i + 1, tail)
+            if not (i.is_const() and i.c == 0):
+                rhs = rhs - i.to_sym() * C.atom(k - 1, j, i - 1, tail)
+            return [("integration by parts (raising the derivative order)", rhs, [k - 1])]
+
+        def base_case(idx, tail):
+            k, j, i = idx
+            if k.is_const() and k.c == 0:
+                return C.named_atom("S0", G.Aff.of(0), j, i, tail)
+            return None
+
+        def domain(env, k, j, i):
+            return z3.And(k >= 0, j >= 0, i >= 0, k <= env("nd"), j <= env("nb"), i <= env("na") + env("nd") - k)
+
+        ret = out.reads[0]
+        env0, _ = G._z3env()
+        # the returned view: all derivative orders, all j, and exactly the a-extent n_a + 1
+        want_idx = [(G.Aff.var("p6")).key(), (G.Aff.var("p5")).key(), (G.Aff.var("p4")).key()]
+        M.true(pfx + "/returned-view/index-map", [e.key() for e in ret["idx"]] == want_idx, "element (p6, p5, p4) of the result is element (p6, p5, p4) of the table: %r" % (ret["idx"],))
+        p6, p5, p4 = z3.Int("p6"), z3.Int("p5"), z3.Int("p4")
+        st, mdl = G.check_valid(_sizes_premise(env0, sizes) + [env0("nd") >= 1, p6 >= 0, p5 >= 0, p4 >= 0],
+                                G._cons_z3(ret["cons"], env0) == z3.And(p6 <= env0("nd"), p5 <= env0("nb"), p4 <= env0("na")))
+        M._rec(pfx + "/returned-view/extent-is-(nd+1,nb+1,na+1)", st, "z3-lia", 0.0, detail=mdl or "", cex=_cex(mdl))
+        check_events(M, C, sizes, tails, candidates, base_case, pfx=pfx, domain=domain, returned=[ret], extra_prem=lambda env: [env("nd") >= 1])
